@@ -148,6 +148,7 @@ func main() {
 	extra := fs.String("params", "", "extra scenario parameters k=v,... appended to the selected scenarios (experiments)")
 	budget := fs.Float64("budget", 0, "override the per-worker budget in seconds (experiments)")
 	_ = fs.Parse(os.Args[2:])
+	partialRun = *only != "" || *extra != "" || *budget != 0
 	if *tier == "" {
 		*tier = "quick"
 	}
@@ -568,6 +569,9 @@ func matchFinding(fs []*Finding, prop, scenario string, v *Violation) *Finding {
 }
 
 // report merges the worker results of one check, writes evidence and prints the verdict.
+// partialRun is set when --only restricts the scenario set; such a run must not overwrite evidence/<id>.json.
+var partialRun bool
+
 func report(c *Check, rs []*WorkerResult, findings []*Finding, tier string, seed int, wall float64) int {
 	sort.Slice(rs, func(i, j int) bool {
 		if rs[i].Scenario != rs[j].Scenario {
@@ -739,6 +743,8 @@ func report(c *Check, rs []*WorkerResult, findings []*Finding, tier string, seed
 	evDir := filepath.Join(verifDir, "evidence")
 	if os.Getenv("VERIF_REPO") != "" {
 		evDir = filepath.Join(verifDir, "evidence-mut") // runs against a scratch copy never touch the real evidence
+	} else if partialRun {
+		evDir = filepath.Join(verifDir, "evidence-partial") // --only runs cover a subset of the scenarios: not the property's evidence
 	}
 	os.MkdirAll(evDir, 0o755)
 	b, _ := json.MarshalIndent(ev, "", " ")
